@@ -1,7 +1,193 @@
 """C18 -- GEOS-Chem binary punch read/write round trip and scaling (bounded, reference encoder)."""
 from .common import *   # noqa
 
-CONTRACTS = []
+import z3
+from pyvc.exec import Obj, Opaque
+from pyvc.models import native
+from pyvc.nparr import sym_array, SArr
+from pyvc.arrays import AbsStr
+from pyvc.sym import is_sym
+
+BP = 'geoschemfiles/_bpch.py'
+
+_SCALE = z3.Function('tracerinfo.SCALE', z3.IntSort(), z3.RealSort())
+_MOLWT = z3.Function('tracerinfo.MOLWT', z3.IntSort(), z3.RealSort())
+_CARBON = z3.Function('tracerinfo.C', z3.IntSort(), z3.IntSort())
+_UNIT = z3.Function('tracerinfo.UNIT', z3.IntSort(), z3.IntSort())
+
+
+class TracerVariable(Contract):
+    """_tracer_lookup.__missing__(key) for a data tracer (bpch1 reader), for records of ANY shape (time, layer, latitude,
+    longitude), any tracer id, any category offset from the diagnostic table and an ARBITRARY tracer table:
+      * the row of the tracer table used is number  (category offset + tracer id);
+      * with scaling every element is raw * SCALE of that row and the unit / molecular weight / carbon count come from that
+        same row; without scaling every element is the raw value;
+      * tracerid, category and the base unit of the record header are carried; nested-grid offsets (STARTI/J/K) are the header's
+        start indices minus one; the record is rejected (ValueError) when its leading and trailing markers disagree;
+      * the memory map is not written."""
+    prop = 'C18'
+    target = BP + '::_tracer_lookup.__missing__'
+    max_paths = 60
+
+    def __init__(self, noscale, in_table, nested):
+        self.noscale, self.in_table, self.nested = noscale, in_table, nested
+        self.name = 'tracer variable[%s,%s,%s]' % ('no scaling' if noscale else 'scaled', 'category in diaginfo' if in_table else 'category not in diaginfo',
+                                                   'nested grid' if nested else 'global grid')
+
+    def inputs(self, ctx, I):
+        T, L, J, K = (ctx.fresh(n) for n in ('ntimes', 'nlays', 'nlat', 'nlon'))
+        self.shape = (T, L, J, K)
+        self.raw = sym_array('raw', self.shape, 'f')
+        self.raw0 = self.raw.buf.get
+        self.tracerid, self.offset = ctx.fresh('tracerid'), ctx.fresh('offset')
+        self.start = [ctx.fresh('start_i'), ctx.fresh('start_j'), ctx.fresh('start_l')] if self.nested else [1, 1, 1]
+        self.spad, self.epad = sym_array('f0', (T,), 'i'), sym_array('f2', (T,), 'i')
+        self.group, self.base_unit, self.reserved = AbsStr(ctx.fresh('category')), AbsStr(ctx.fresh('base_unit')), AbsStr(ctx.fresh('reserved'))
+        start, dimsz = self.start, [K, J, L]
+        hdr_fields = {'f7': self.group, 'f8': self.tracerid, 'f9': self.base_unit, 'f12': self.reserved,
+                      'f14': SArr((3,), lambda q: nparr_select(start, q[0]), 'i', tag='f14'), 'f13': SArr((3,), lambda q: nparr_select(dimsz, q[0]), 'i', tag='f13')}
+        grp = self.group
+        strip_tok = Obj(None, {'decode': native(lambda I2, a, k: grp)}, tag='bytes')
+        hdr_fields['f7'] = Obj(None, {'strip': native(lambda I2, a, k: strip_tok)}, tag='S40')
+        header0 = Obj(None, {'__getitem__': native(lambda I2, a, k: hdr_fields[a[0]])}, tag='header[0]')
+        headers = Obj(None, {'__getitem__': native(lambda I2, a, k: header0 if a[0] == 0 else Opaque('other header'))}, tag='header')
+        f1dt = Obj(None, {'shape': (L, J, K)}, tag='dtype(f1)')
+        datadt = Obj(None, {'__getitem__': native(lambda I2, a, k: f1dt)}, tag='dtype(data)')
+        dfields = {'f0': self.spad, 'f1': self.raw, 'f2': self.epad}
+        data = Obj(None, {'__getitem__': native(lambda I2, a, k: dfields[a[0]]), 'dtype': datadt}, tag='data')
+        rec = Obj(None, {'__getitem__': native(lambda I2, a, k: {'header': headers, 'data': data}[a[0]])}, tag='memmap[key]')
+        off = self.offset
+        in_table = self.in_table
+
+        def diag_get(I2, a, k):
+            return {'offset': off} if in_table else (a[1] if len(a) > 1 else None)
+        diag = Obj(None, {'get': native(diag_get)}, tag='diaginfo')
+
+        def tracer_row(I2, a, k):
+            o = a[0]
+            fields = {'SCALE': _SCALE(sym.to_z3(o)), 'MOLWT': _MOLWT(sym.to_z3(o)), 'C': _CARBON(sym.to_z3(o)), 'UNIT': AbsStr(_UNIT(sym.to_z3(o)))}
+            I2.ctx.ghost.setdefault('tracer_rows', []).append(o)
+            return Obj(None, {'__getitem__': native(lambda I3, a3, k3: fields[a3[0]])}, tag='tracerinfo row')
+        tracers = Obj(None, {'__getitem__': native(tracer_row)}, tag='tracerinfo')
+        parent = pnc_file(I, dimensions={'time': dim_obj(I, 'time', T), 'layer': dim_obj(I, 'layer', L), 'latitude': dim_obj(I, 'latitude', J), 'longitude': dim_obj(I, 'longitude', K)})
+        me = self_obj(I, BP, '_tracer_lookup', dict(noscale=self.noscale, nogroup=False, _tracer_data=tracers, _diag_data=diag, _memmap={'IJ-AVG-$_NOx': rec}, _parent=parent,
+                                                    _special_keys=set(), _keys=['IJ-AVG-$_NOx'], _example_key='IJ-AVG-$_NOx'))
+        return dict(self=me, key='IJ-AVG-$_NOx')
+
+    def requires(self, inp):
+        T, L, J, K = self.shape
+        return And(ge(T, 1), ge(L, 1), ge(J, 1), ge(K, 1), ge(self.tracerid, 1), ge(self.offset, 0), *[ge(x, 1) for x in self.start if is_sym(x)])
+
+    def small(self, inp):
+        return And(*[le(x, 2) for x in self.shape])
+
+    def row(self):
+        return add(self.tracerid, self.offset if self.in_table else 0)
+
+    def ensures(self, inp, res, I):
+        if not isinstance(res, SArr) or res.ndim != 4:
+            return [('returns a 4-d variable', False)]
+        q = tuple(z3.Int('q%d' % k) for k in range(4))
+        rng = And(*[And(ge(i, 0), lt(i, n)) for i, n in zip(q, self.shape)])
+        o = self.row()
+        rows = I.ctx.ghost.get('tracer_rows', [])
+        a = res.attrs
+        exp = self.raw0(q) if self.noscale else mul(self.raw0(q), _SCALE(sym.to_z3(o)))
+        out = [('shape', And(*[eq(x, y) for x, y in zip(res.shape, self.shape)])),
+               ('tracer-table row = category offset + tracer id', len(rows) >= 1 and And(*[eq(r, o) for r in rows])),
+               ('every element = raw value%s' % ('' if self.noscale else ' * SCALE of that row'), Implies(rng, eq(res.get(q), exp))),
+               ('unit, molecular weight and carbon count from the same row', isinstance(a.get('units'), AbsStr) and And(eq(a['units'].sid, _UNIT(sym.to_z3(o))), eq(a.get('kgpermole'), _MOLWT(sym.to_z3(o))),
+                                                                                                                 eq(a.get('carbon'), _CARBON(sym.to_z3(o))), eq(a.get('scale'), _SCALE(sym.to_z3(o))))),
+               ('tracer id, category and base unit of the header carried', And(eq(a.get('tracerid'), self.tracerid), a.get('category') is self.group, a.get('base_units') is self.base_unit)),
+               ('memory map not written', Implies(rng, eq(self.raw.buf.get(q), self.raw0(q)))),
+               ('accepted only when every leading marker equals its trailing marker', Implies(And(ge(q[0], 0), lt(q[0], self.shape[0])), eq(self.spad.get((q[0],)), self.epad.get((q[0],)))))]
+        if self.nested:
+            off1 = lambda x: sub(x, 1)
+            nz = Or(*[ne(off1(x), 0) for x in self.start])
+            out.append(('nested-grid offsets = header start indices - 1 (when any is non-zero)',
+                        Implies(nz, And(eq(a.get('STARTI', 0), off1(self.start[0])), eq(a.get('STARTJ', 0), off1(self.start[1])), eq(a.get('STARTK', 0), off1(self.start[2]))))
+                        if all(k in a for k in ('STARTI', 'STARTJ', 'STARTK')) else sym.Not(nz)))
+        return out
+
+    def concretize(self, model, inp):
+        from pyvc.verify import model_value
+        mv = lambda x: model_value(model, x) if is_sym(x) else x
+        return dict(noscale=self.noscale, in_table=self.in_table, shape=[mv(x) for x in self.shape], tracerid=mv(self.tracerid), offset=mv(self.offset), start=[mv(x) for x in self.start])
+
+    def concretize_without_model(self, inp):
+        return dict(noscale=self.noscale, in_table=self.in_table, shape=[2, 3, 2, 4], tracerid=3, offset=100, start=[3, 2, 4] if self.nested else [1, 1, 1])
+
+    def replay(self, c):
+        """a native structured record + tracer/diagnostic tables handed to the real _tracer_lookup; markers agree, then one marker is broken"""
+        import numpy as np
+        import_real()
+        from PseudoNetCDF.geoschemfiles._bpch import _tracer_lookup
+        from PseudoNetCDF import PseudoNetCDFFile
+        T, L, J, K = [min(max(int(x), 1), 4) for x in c['shape']]
+        tid = int(c['tracerid']) if 1 <= int(c['tracerid']) <= 10 ** 6 else 3
+        off = (int(c['offset']) if 1 <= int(c['offset']) <= 10 ** 6 else 100) if c['in_table'] else 0
+        start = [min(max(int(x), 1), 50) for x in c['start']]
+        hdt = np.dtype([('f7', 'S40'), ('f8', '>i4'), ('f9', 'S40'), ('f10', '>f8'), ('f11', '>f8'), ('f12', 'S40'), ('f13', '>i4', (3,)), ('f14', '>i4', (3,))])
+        ddt = np.dtype([('f0', '>i4'), ('f1', '>f4', (L, J, K)), ('f2', '>i4')])
+        rec = np.zeros((T,), dtype=np.dtype([('header', hdt), ('data', ddt)]))
+        rec['header']['f7'] = b'IJ-AVG-$'.ljust(40)
+        rec['header']['f8'] = tid
+        rec['header']['f9'] = b'v/v'.ljust(40)
+        rec['header']['f13'] = [K, J, L]
+        rec['header']['f14'] = start
+        raw = (np.arange(T * L * J * K, dtype='f').reshape(T, L, J, K) + 1) / 8
+        rec['data']['f1'] = raw
+        rec['data']['f0'] = rec['data']['f2'] = L * J * K * 4 + 8
+        before = rec.copy()
+        row = lambda r: dict(SCALE=2.0 + r, MOLWT=0.001 * (r + 1), C=1 + r % 3, UNIT='unit%d' % r)
+
+        class Table(dict):
+            def __missing__(self, r):
+                return row(r)
+        diag = {'IJ-AVG-$': dict(offset=off)} if c['in_table'] else {}
+        parent = PseudoNetCDFFile()
+        for k_, n_ in zip(('time', 'layer', 'latitude', 'longitude'), (T, L, J, K)):
+            parent.createDimension(k_, n_)
+        key = 'IJ-AVG-$_X'
+        tl = _tracer_lookup(parent, {key: rec}, Table(), diag, [key, 'BXHGHT-$_BXHEIGHT'], noscale=c['noscale'])
+        bad = []
+        v = tl[key]
+        exp_row = tid + off
+        exp = raw if c['noscale'] else raw * np.float32(1) * (2.0 + exp_row)
+        if v.shape != (T, L, J, K) or not np.allclose(np.asarray(v[...], 'd'), exp, rtol=1e-6):
+            bad.append('values are not raw%s' % ('' if c['noscale'] else ' x SCALE of row %d' % exp_row))
+        if getattr(v, 'units', None) != 'unit%d' % exp_row or getattr(v, 'kgpermole', None) != 0.001 * (exp_row + 1) or getattr(v, 'carbon', None) != 1 + exp_row % 3:
+            bad.append('unit / molecular weight / carbon count not from row %d (units %r)' % (exp_row, getattr(v, 'units', None)))
+        if int(getattr(v, 'tracerid', -1)) != tid or getattr(v, 'category', None) != 'IJ-AVG-$':
+            bad.append('tracer id / category not carried')
+        if any(x != 1 for x in start):
+            got = [int(getattr(v, a_, -999)) for a_ in ('STARTI', 'STARTJ', 'STARTK')]
+            if got != [x - 1 for x in start]:
+                bad.append('nested-grid offsets %r, header start indices %r' % (got, start))
+        if rec.tobytes() != before.tobytes():
+            bad.append('the memory map was written')
+        rec2 = rec.copy()
+        rec2['data']['f2'][T - 1] += 4
+        tl2 = _tracer_lookup(parent, {key: rec2}, Table(), diag, [key, 'BXHGHT-$_BXHEIGHT'], noscale=c['noscale'])
+        try:
+            tl2[key]
+            bad.append('a record whose leading and trailing markers disagree was accepted')
+        except ValueError:
+            pass
+        return (not bad), dict(shape=[T, L, J, K], tracerid=tid, offset=off, start=start, noscale=c['noscale'], failed=bad)
+
+    def on_raise(self, inp, exc, I):
+        t = z3.Int('t')
+        differ = z3.Exists([t], And(ge(t, 0), lt(t, self.shape[0]), ne(self.spad.get(t), self.epad.get(t))))
+        return [('raises only ValueError, only when a leading and a trailing record marker disagree (raised %s)' % exc, And(exc == 'ValueError', differ))]
+
+
+def nparr_select(vals, i):
+    from pyvc.nparr import _select
+    return _select(list(vals), i)
+
+
+CONTRACTS = [TracerVariable(ns, it, nest) for ns, it, nest in ((False, True, False), (True, True, False), (False, False, False), (False, True, True))]
 
 
 def bounded(tier, seed):
@@ -117,8 +303,15 @@ def bounded_replay(p):
 
 
 META = dict(
-    level='exploration',
-    technique='bounded run-time contract with an independent bpch encoder/decoder',
-    text='byte round trip without scaling, scaling law, write/read through the reference decoder, agreement of both readers, on generated files.',
-    note='bounded only.',
-    assumptions=[], explanation='')
+    level='other',
+    technique='scaling law of the memory-mapped reader (_tracer_lookup.__missing__: tracer-table row = category offset + tracer id, value = raw x SCALE, unit from the same row, noscale -> raw) '
+              'proved by pyvc for records of any shape and an arbitrary tracer table; byte round trip, writer and second reader by bounded run-time contract with an independent bpch encoder/decoder',
+    text='Proved: for a record of ANY shape (time, layer, latitude, longitude), any tracer id, any category offset and an arbitrary tracer table (uninterpreted SCALE/UNIT/MOLWT/C per row), the variable served by '
+         'the bpch1 reader uses row (offset + tracer id) -- row (tracer id) when the category is not in diaginfo --, every element is raw x SCALE of that row (raw when noscale), unit / molecular weight / carbon count come from '
+         'that same row, tracer id, category and base unit of the header are carried, nested-grid offsets are the header start indices minus one in (i, j, l) order, the memory map is not written and a record whose '
+         'markers disagree is rejected with ValueError.  Bounded: byte round trip without scaling, write/read through the reference decoder, agreement of both readers, on generated files.',
+    note='The header walk of bpch1.__init__ (numpy structured dtypes built from text, memmap strides), ncf2bpch and bpch2 are outside the modelled subset: bounded only.  The record (memmap[key]) is an abstract object with the '
+         'field interface the function uses (header[0][f7..f14], data[f0,f1,f2], data.dtype[f1].shape).',
+    assumptions=['record interface of numpy structured memmap modelled by an abstract object', 'float arithmetic treated as real arithmetic',
+                 'header walk / writer / bpch2: bounded only'],
+    explanation='mixed: proof obligations for the scaling law of the reader + bounded exploration of the byte-level round trips')
